@@ -46,6 +46,9 @@ pub struct SchedCfg {
     /// the reporter itself uses tracing inside report() (on the collector's thread)
     #[serde(default)]
     pub reporter_traces: bool,
+    /// the id prefixes the threads draw are consecutive numbers instead of scattered ones
+    #[serde(default)]
+    pub adjacent_ids: bool,
 }
 
 impl SchedCfg {
@@ -63,6 +66,7 @@ impl SchedCfg {
             wall_steps: vec![],
             report_stall: None,
             reporter_traces: false,
+            adjacent_ids: false,
         }
     }
 }
